@@ -41,7 +41,7 @@ def one(item):
         sh('git -C /repo worktree remove --force %s' % wt)
     return res
 
-items = [(p, x) for p in sorted(os.listdir(OUT)) if os.path.isdir(OUT + '/' + p) for x in ('a', 'b', 'c', 'd', 'e', 'f')]
+items = [(p, x) for p in sorted(os.listdir(OUT)) if os.path.isdir(OUT + '/' + p) for x in ('a', 'b', 'c', 'd', 'e', 'f', 'g', 'h')]
 if only:
     items = [(p, x) for p, x in items if p in only or '%s-%s' % (p, x) in only]
 with ThreadPoolExecutor(4) as ex:
